@@ -15,6 +15,9 @@ import (
 //	c07ScanCalls             scanFromStorage (pkg/index/corpus.go): order of scanPrefix / restoreInvariants / initDeletes
 //	c07ZeroTimeIsNow         valuesAtSigner: the `if at.IsZero()` body assigns time.Now() and does not return
 //	c07FixupWhenNotBuilding  mergeClaimRow: fixupLastClaim is called under `if !c.building`, after the append
+//	c07ClaimOrderTieBreak    camtypes: both ClaimPtrsByDate.Less and ClaimsByDate.Less go through claimBefore,
+//	                         which orders equal dates by BlobRef.Less (83d40e9)
+//	c07DescribeCalls         populatePermanodeFields (pkg/search/describe.go): order of AppendClaims / sort.Sort
 
 // callsIn lists, in source order, the calls inside n whose dotted text ends with one of names.
 func callsIn(n ast.Node, names ...string) []string {
@@ -130,6 +133,33 @@ func init() {
 				})
 			}
 			return fmt.Sprintf("def c07ZeroTimeIsNow : Bool := %v\n", ok), ok
+		}},
+		rawSpec{"c07ClaimOrderTieBreak", "C07", func() (string, any) {
+			p := load("pkg/types/camtypes")
+			ok := false
+			cb := p.funcDecl("", "claimBefore")
+			l1 := p.funcDecl("ClaimPtrsByDate", "Less")
+			l2 := p.funcDecl("ClaimsByDate", "Less")
+			if cb == nil || l1 == nil || l2 == nil {
+				fail("C07: camtypes claimBefore / ClaimPtrsByDate.Less / ClaimsByDate.Less not found")
+			} else {
+				body := p.src(cb.Body)
+				ok = strings.Contains(body, "a.Date.Equal(b.Date)") && strings.Contains(body, "a.BlobRef.Less(b.BlobRef)") &&
+					strings.Contains(body, "a.Date.Before(b.Date)") &&
+					len(callsIn(l1.Body, "claimBefore")) == 1 && len(callsIn(l2.Body, "claimBefore")) == 1
+			}
+			return fmt.Sprintf("def c07ClaimOrderTieBreak : Bool := %v\n", ok), ok
+		}},
+		rawSpec{"c07DescribeCalls", "C07", func() (string, any) {
+			p := load("pkg/search")
+			fd := p.funcDecl("DescribeRequest", "populatePermanodeFields")
+			var calls []string
+			if fd == nil {
+				fail("C07: (*DescribeRequest).populatePermanodeFields not found")
+			} else {
+				calls = callsIn(fd.Body, "AppendClaims", "sort.Sort", "ClaimsByDate")
+			}
+			return fmt.Sprintf("def c07DescribeCalls : List String := %s\n", leanStrings(calls)), calls
 		}},
 		rawSpec{"c07FixupWhenNotBuilding", "C07", func() (string, any) {
 			p := load("pkg/index")
